@@ -577,6 +577,7 @@ def _history(case, which):
     file_of = w['files']
     dir_of = dict((os.path.realpath(f), os.path.dirname(os.path.realpath(f))) for f in file_of.values())
     hist = case['hist']
+    path_kind = ['str']
 
     def content():
         return sorted((cache.cia_dict if which == 'cia' else cache.opacity_dict).keys())
@@ -596,8 +597,10 @@ def _history(case, which):
             try:
                 if k == 'path':
                     d = w['dirs'][op[1].split('-')[0]]
+                    path_kind[0] = 'str'
                     if op[1].endswith('-list'):
                         d = [d]            # the same directory configured as a one-element list of search paths
+                        path_kind[0] = 'list'
                     if which == 'xsec':
                         cache.set_opacity_path(d)
                     elif which == 'ktable':
@@ -726,7 +729,7 @@ def _history(case, which):
     # everything that can influence a later step: the model state, what the cache's own dictionary
     # lists, and whether it still holds the very objects the model registered
     d = cache.cia_dict if which == 'cia' else cache.opacity_dict
-    state = (model.key(), tuple((m, d[m] is objs.get(m)) for m in content()))
+    state = (model.key(), path_kind[0], tuple((m, d[m] is objs.get(m)) for m in content()))
     r.observe(repr(state))
     r.key = None if diverged else repr(state)
     r.extra = None
